@@ -297,6 +297,18 @@ let monitor (opsf : string) (obsf : string) (outf : string) =
            | ONew _ -> ["C07"; "C08"; "C05"] | OAppendValue _ -> ["C03"; "C07"; "C12"; "C05"]
            | OWrite _ -> ["C08"; "C05"] | OClear -> ["C13"] | OReserve _ -> ["C13"]) in
          List.iter bump props;
+         (match o, out with
+          | (ONew _ | OAppendValue _), OutId z ->
+              bump "C11";
+              (match spec_id_at a' (nat_of_int (int_of_nat z.idx + 1)) with
+               | Some y when nid_eqb y z -> ()
+               | other -> report "C11" (Printf.sprintf "the id %s returned at creation is not what lookup by its position gives (%s)" (s_id z) (s_oid other)))
+          | ORemove x, OutUnit ->
+              bump "C11";
+              (match spec_id_at a' (nat_of_int (int_of_nat x.idx + 1)) with
+               | Some y when nid_eqb y x -> report "C11" (Printf.sprintf "lookup by position still returns the id %s of a node that was just removed" (s_id x))
+               | _ -> ())
+          | _ -> ());
          List.iter (fun c ->
            let ci = int_of_n c in
            let dead_arg = (match o with
